@@ -1,3 +1,5 @@
+//go:build mcbuild
+
 // C18 (concurrent part): Watchable / Future / Lazy. Engine E2.
 package main
 
